@@ -514,6 +514,7 @@ class ContainerValue:
             "list_value": ListValue,
             "map_or_list_value": MapOrListValue,
         }
+        spec = dict(spec)  # consumed below with `pop`; leave the caller's mapping as it is
         container_type = spec.pop("type", "map_or_list_value")
         try:
             cls = CLS_LOOKUP[container_type]
